@@ -58,7 +58,8 @@ PROPS = {
 PROBES = {'C06': ['readd_removed_other_stride', 'append_differing_props', 'extract_into_nonempty',
                   'op_on_empty_array', 'nonlocal_tags_at_align', 'pickle_strided', 'set_tag_called',
                   'clear_then_reuse', 'append_update_constants', 'remove_all', 'extract_duplicate_indices',
-                  'add_property_fills_empty_array', 'fill_empty_array_with_strided_props_declared', 'remove_unsorted_indices', 'copy_properties_open_ended']}
+                  'add_property_fills_empty_array', 'fill_empty_array_with_strided_props_declared', 'remove_unsorted_indices', 'copy_properties_open_ended', 'redeclared_existing_property',
+                  'redeclared_existing_strided_property']}
 
 
 def prepare(prop, tier):
@@ -598,7 +599,13 @@ def apply_op(w, op):
         variants = POOL[name]
         ctype, stride = variants[int(op.get('variant', 0)) % len(variants)]
         if name in m.props:
-            return None
+            # declaring a property that exists already (no data, no stride, no default) changes nothing
+            pa.add_property(name)
+            w.probe('redeclared_existing_property')
+            if m.props[name][1] > 1:
+                w.probe('redeclared_existing_strided_property')
+            w.kinds.append(k)
+            return 'add_property(%s) for a property that exists' % name, touched
         default = op.get('default', 0)
         default = abs(int(default)) if ctype == 'unsigned int' else int(default)
         old = w.removed.get((ai, name))
